@@ -4,9 +4,11 @@
 //
 //	S:<maxIn>:<maxIp>:<maxOut>:<rsv> op;op;op...
 //
-// rsv is `*` (every address acceptable) or a `,`-list of ip numbers (StaticReserveFilter).  An op is the full descriptor
-// of a connection ("thread"):
+// rsv is `*` (every address acceptable) or a `,`-list of hosts (StaticReserveFilter; a number k means 10.0.0.k).  An op
+// is the full descriptor of a connection ("thread"):
 //
+//	<dir><n>,<host>,<port>,<lport>,<pid>,<fate>   any host string: IPv4, IPv6 (::1, fe80::1%eth0, 2001:db8::1,
+//	                                                 ::ffff:1.2.3.4); the remote address is net.JoinHostPort(host, port)
 //	<dir><n>.<ip>.<port>.<lport>.<pid>.<fate>     dir i|o, n = discriminator, remote address 10.0.0.<ip>:<port>,
 //	                                                 lport = listen port the remote advertises, pid = peer id (0 = the
 //	                                                 controller's own id), fate ok|hf (handshake fails)|df (dial fails)
@@ -100,7 +102,9 @@ type connRes struct {
 type thread struct {
 	desc                  string
 	dir                   byte
-	ip, port, lport, pid  int
+	host                  string // bare host; the address is net.JoinHostPort(host, port)
+	ipKey                 string // common.ParseIPAddr(addr): the key the controller counts per-IP connections by
+	port, lport, pid      int
 	fate                  string
 	stage                 int // 0 new, 1 in handshake / dialing, 2 saved, 3 finished
 	done                  chan connRes
@@ -112,8 +116,7 @@ type thread struct {
 	established, rejected bool
 }
 
-func (t *thread) addr() string   { return fmt.Sprintf("10.0.0.%d:%d", t.ip, t.port) }
-func (t *thread) ipStr() string  { return fmt.Sprintf("10.0.0.%d", t.ip) }
+func (t *thread) addr() string   { return net.JoinHostPort(t.host, strconv.Itoa(t.port)) }
 func (t *thread) nonce() uint64 {
 	if t.pid == 0 {
 		return selfNonce
@@ -156,7 +159,7 @@ type config struct {
 }
 
 func parseTag(tag string) config {
-	p := strings.Split(tag, ":")
+	p := strings.SplitN(tag, ":", 5)
 	if len(p) != 5 || p[0] != "S" {
 		return config{}
 	}
@@ -171,11 +174,17 @@ func parseTag(tag string) config {
 	if p[4] != "*" {
 		c.rsv = []string{}
 		for _, x := range strings.Split(p[4], ",") {
-			n, err := strconv.Atoi(x)
-			if err != nil || n < 0 || n > 255 {
+			if x == "" {
 				return config{}
 			}
-			c.rsv = append(c.rsv, fmt.Sprintf("10.0.0.%d", n))
+			if strings.Trim(x, "0123456789") == "" {
+				n, err := strconv.Atoi(x)
+				if err != nil || n > 255 {
+					return config{}
+				}
+				x = fmt.Sprintf("10.0.0.%d", n)
+			}
+			c.rsv = append(c.rsv, x)
 		}
 	}
 	c.ok = true
@@ -186,22 +195,47 @@ func parseThread(desc string) *thread {
 	if len(desc) < 2 || (desc[0] != 'i' && desc[0] != 'o') {
 		return nil
 	}
-	p := strings.Split(desc[1:], ".")
-	if len(p) != 6 {
-		return nil
+	num := func(x string) (int, bool) {
+		v, err := strconv.Atoi(x)
+		return v, err == nil && v >= 0 && strings.Trim(x, "0123456789") == ""
 	}
-	var n [5]int
-	for i := 0; i < 5; i++ {
-		v, err := strconv.Atoi(p[i])
-		if err != nil || v < 0 {
+	var host string
+	var f []string
+	if strings.Contains(desc, ",") {
+		p := strings.Split(desc[1:], ",")
+		if len(p) != 6 {
+			return nil
+		}
+		host, f = p[1], []string{p[0], p[2], p[3], p[4], p[5]}
+	} else {
+		p := strings.Split(desc[1:], ".")
+		if len(p) != 6 {
+			return nil
+		}
+		k, ok := num(p[1])
+		if !ok || k > 255 {
+			return nil
+		}
+		host, f = fmt.Sprintf("10.0.0.%d", k), []string{p[0], p[2], p[3], p[4], p[5]}
+	}
+	var n [4]int
+	for i := 0; i < 4; i++ {
+		v, ok := num(f[i])
+		if !ok {
 			return nil
 		}
 		n[i] = v
 	}
-	if n[1] > 255 || n[2] > 65535 || n[3] > 65535 || (p[5] != "ok" && p[5] != "hf" && p[5] != "df") {
+	if host == "" || n[1] > 65535 || n[2] > 65535 || (f[4] != "ok" && f[4] != "hf" && f[4] != "df") {
 		return nil
 	}
-	return &thread{desc: desc, dir: desc[0], ip: n[1], port: n[2], lport: n[3], pid: n[4], fate: p[5]}
+	t := &thread{desc: desc, dir: desc[0], host: host, port: n[1], lport: n[2], pid: n[3], fate: f[4]}
+	ip, err := common.ParseIPAddr(t.addr()) // the function the controller applies to its records
+	if err != nil || ip == "" {
+		return nil
+	}
+	t.ipKey = ip
+	return t
 }
 
 // ---------------------------------------------------------------------------------------------------------------
@@ -234,27 +268,12 @@ func rejKind(err error) string {
 }
 
 func canonAddrs(xs []string) string {
-	type ap struct{ ip, port int }
-	var v []ap
-	for _, x := range xs {
-		h, p, err := net.SplitHostPort(x)
-		if err != nil {
-			return "?" + x
-		}
-		var a ap
-		fmt.Sscanf(h, "10.0.0.%d", &a.ip)
-		a.port, _ = strconv.Atoi(p)
-		v = append(v, a)
-	}
-	sort.Slice(v, func(i, j int) bool { return v[i].ip < v[j].ip || (v[i].ip == v[j].ip && v[i].port < v[j].port) })
-	if len(v) == 0 {
+	if len(xs) == 0 {
 		return "-"
 	}
-	out := make([]string, len(v))
-	for i, a := range v {
-		out[i] = fmt.Sprintf("%d.%d", a.ip, a.port)
-	}
-	return strings.Join(out, ",")
+	v := append([]string(nil), xs...)
+	sort.Strings(v)
+	return strings.Join(v, ",")
 }
 
 // ---------------------------------------------------------------------------------------------------------------
@@ -272,7 +291,7 @@ func exec(line string) hx.Result {
 	}
 	threads := map[string]*thread{}
 	var order []*thread
-	ipset := map[int]bool{}
+	ipset := map[string]bool{}
 	for _, o := range ops {
 		if threads[o] == nil {
 			t := parseThread(o)
@@ -281,14 +300,14 @@ func exec(line string) hx.Result {
 			}
 			threads[o] = t
 			order = append(order, t)
-			ipset[t.ip] = true
+			ipset[t.ipKey] = true
 		}
 	}
-	var ips []int
+	var ips []string
 	for ip := range ipset {
 		ips = append(ips, ip)
 	}
-	sort.Ints(ips)
+	sort.Strings(ips)
 
 	lg := &quietLogger{}
 	dl := &dialer{pending: map[string]*thread{}}
@@ -464,17 +483,17 @@ func exec(line string) hx.Result {
 		// observables of the implementation
 		in, out, listen, connecting, own, npeers := ctrl.VerifSnapshotC36()
 		var ipc []string
-		ipOver := -1
+		ipOver := ""
 		for _, ip := range ips {
-			c := ctrl.VerifInboundCountWithIpC36(fmt.Sprintf("10.0.0.%d", ip))
-			ipc = append(ipc, fmt.Sprintf("%d:%d", ip, c))
-			if int(c) > cfg.maxIp && ipOver < 0 {
+			c := ctrl.VerifInboundCountWithIpC36(ip)
+			ipc = append(ipc, fmt.Sprintf("%s=%d", ip, c))
+			if int(c) > cfg.maxIp && ipOver == "" {
 				ipOver = ip
 			}
 		}
 		ownS := "-"
 		if own != "" {
-			ownS = canonAddrs([]string{own})
+			ownS = own
 		}
 		outs = append(outs, fmt.Sprintf("%s I=%s O=%s L=%s C=%s own=%s P=%d ip=%s", r, canonAddrs(in), canonAddrs(out),
 			canonAddrs(listen), canonAddrs(connecting), ownS, npeers, strings.Join(ipc, ",")))
@@ -482,7 +501,7 @@ func exec(line string) hx.Result {
 		// ---- property predicate on the implementation's own counters, after every step
 		inflight := 0
 		liveIn, liveOut := 0, 0
-		liveIp := map[int]int{}
+		liveIp := map[string]int{}
 		for _, u := range order {
 			if u.stage == 1 {
 				inflight++
@@ -490,7 +509,7 @@ func exec(line string) hx.Result {
 			if u.established {
 				if u.dir == 'i' {
 					liveIn++
-					liveIp[u.ip]++
+					liveIp[u.ipKey]++
 				} else {
 					liveOut++
 				}
@@ -506,7 +525,7 @@ func exec(line string) hx.Result {
 				what = "counters-inconsistent"
 			case len(in) > cfg.maxIn || liveIn > cfg.maxIn:
 				what, dir = "inbound-limit", 'i'
-			case ipOver >= 0:
+			case ipOver != "":
 				what, dir = "per-ip-limit", 'i'
 			case len(out) > cfg.maxOut || liveOut > cfg.maxOut:
 				what, dir = "outbound-limit", 'o'
